@@ -676,7 +676,14 @@ func c08CheckIntervals(o *vOut, logp string, skip int, rep map[string]any) {
 		o.Stat("rig2_interval_pairs_checked", 1)
 		if ivs[i].a < ivs[i-1].r {
 			rep["overlapNs"] = ivs[i-1].r - ivs[i].a
-			o.Mon("C08 rig2 overlap", rep)
+			if _, afterKill := rep["killAfterMs"]; afterKill {
+				// the previous holder was killed: these are contenders that raced for ONE STALE lock file
+				// (the documented non-guarantee; finding D27) — exclusion among live holders without a
+				// death in between keeps the plain signature
+				o.Mon("C08 rig2 overlap-among-contenders-for-a-stale-lock", rep)
+			} else {
+				o.Mon("C08 rig2 overlap", rep)
+			}
 		}
 	}
 }
